@@ -277,6 +277,37 @@ def eval_cases(case_dir, timeout=1200):
     return res
 
 
+def eval_nat_lists(case_dir, expr, timeout=1200):
+    """Evaluate `map <f> cases` (f : case -> list nat) on every shard; returns one list of ints per case (global order)."""
+    summ = json.load(open(os.path.join(case_dir, "summary.json")))
+    shards = sorted(glob.glob(os.path.join(case_dir, "cases_*.v")),
+                    key=lambda p: int(re.search(r"cases_(\d+)\.v", p).group(1)))
+
+    def one(path):
+        k = int(re.search(r"cases_(\d+)\.v", path).group(1))
+        txt = open(path).read()
+        head = txt[:txt.index("Definition mismatches")]
+        tmp = os.path.join(case_dir, "extra_%d.v" % k)
+        open(tmp, "w").write(head + "Definition extra := Eval vm_compute in (%s).\nPrint extra.\n" % expr)
+        rc, so, se, dt = sh(["coqc", "-Q", COQ, "PS", "-w", "-notation-overridden", os.path.basename(tmp)],
+                            cwd=case_dir, timeout=timeout)
+        m = re.search(r"extra\s*=\s*(\[.*?\])\s*:\s*list", so.replace("\n", " "), re.S)
+        if not m:
+            return k, None
+        body = m.group(1).replace("%nat", "")
+        inner = re.findall(r"\[([^\[\]]*)\]", body[1:-1]) if body.strip() != "[]" else []
+        return k, [[int(x) for x in re.split(r"[;\s]+", i) if x.strip()] for i in inner]
+
+    out = []
+    with ThreadPoolExecutor(max_workers=16) as ex:
+        res = dict(ex.map(one, shards))
+    for k in sorted(res):
+        if res[k] is None:
+            return None
+        out.extend(res[k])
+    return out
+
+
 def load_known_findings():
     """known_findings.json (+ per-property findings/*.json while being developed in parallel)."""
     out = []
@@ -429,6 +460,10 @@ def finish(ctx, prop, proof):
             notes=ctx.notes, **ctx.extra),
         assumptions=prop.get("assumptions", []),
         wall_s=round(wall, 2), violations=nviol)
+    if discharged == 0:
+        # nothing was proved in this run (broken build or proof): do not claim proof-level counts
+        ev["coverage"].pop("discharged", None)
+        ev["coverage"]["obligations_not_discharged"] = ev["coverage"].pop("obligations", 0)
     os.makedirs(os.path.join(ROOT, "evidence"), exist_ok=True)
     json.dump(ev, open(os.path.join(ROOT, "evidence", pid + ".json"), "w"), indent=1)
     log("[%s] %s tier=%s wall=%.1fs evaluations=%d theorems=%d/%d" % (
